@@ -291,7 +291,7 @@ def main():
         for k in REQUIRED_PROBES.get(prop, []):
             if ctr.get(k, 0) == 0:
                 missing.append(k)
-        need_states = {"C11": 64}.get(prop)   # every reachable (buffer position, update path) pair
+        need_states = {"C11": 63}.get(prop)   # every reachable (buffer position, update path) pair: 4 at position 0, 4 at 1..14, 3 at 15 (a short top-up of a 1-byte gap is the empty update)
         if tier == "thorough" and need_states and states < need_states:
             missing.append("abstract states reached %d < %d" % (states, need_states))
         if missing and tier == "thorough":
